@@ -348,6 +348,34 @@ def r11b(model: Model, rr: RuleResult):
                 tags = {e.value for e in vals.elts}
                 loop = st
     if tags is None:
+        # the set of tables is a parameter: its default must name all four containers and no caller may narrow it
+        from ..dataflow import param_closure as _pc11, fold_module_constants as _fm11
+        for st in walk_body(fi):
+            if not isinstance(st, ast.For):
+                continue
+            ps = _pc11(cfg, cfg.node_for(st), st.iter)
+            a_ = fi.node.args
+            names_ = [x.arg for x in a_.args]
+            for p_ in ps:
+                if p_ not in names_ or names_.index(p_) < len(names_) - len(a_.defaults):
+                    continue
+                dflt = _fm11(a_.defaults[names_.index(p_) - (len(names_) - len(a_.defaults))], fi)
+                if isinstance(dflt, (ast.Tuple, ast.List, ast.Set)) and all(isinstance(e, ast.Constant) and isinstance(e.value, str) for e in dflt.elts):
+                    tags = {e.value for e in dflt.elts}
+                    loop = st
+                    for g, call in model.call_sites(fi):
+                        from ..model import arg as _a11
+                        given = _a11(call, names_.index(p_), p_)
+                        if given is None:
+                            continue
+                        gv = _fm11(given, g)
+                        if isinstance(gv, (ast.Tuple, ast.List, ast.Set)) and all(isinstance(e, ast.Constant) for e in gv.elts) and {e.value for e in gv.elts} < tags:
+                            rr.bad(g, call, f"{g.qualname} reorders the glyphs but restricts the coverage fix-up to {sorted(e.value for e in gv.elts)}: the glyph-id-ordered structures of "
+                                   f"{sorted(tags - {e.value for e in gv.elts})} (GDEF mark glyph sets, attach list, ligature carets; MATH coverages) keep the OLD order and are written unsorted",
+                                   construct=f"{g.qualname}: reorder_glyphs(..., {p_}={short(given, 40)})")
+                        elif not (isinstance(gv, (ast.Tuple, ast.List, ast.Set)) and {getattr(e, 'value', None) for e in gv.elts} >= tags):
+                            rr.bad_shape(g, call, f"reorder_glyphs is called with {p_}={short(given, 40)}: cannot tell that all four containers are covered", construct=f"{g.qualname}: {p_}")
+    if tags is None:
         raise AnalysisError("reorder_glyphs: loop over the coverage container tags not found")
     want = {"GDEF", "GPOS", "GSUB", "MATH"}
     if want - tags:
@@ -749,6 +777,14 @@ def r11h(model: Model, rr: RuleResult):
     pos = [x.arg for x in a_.args]
     if "lazy" in pos and len(a_.defaults) >= len(pos) - pos.index("lazy"):
         default = a_.defaults[pos.index("lazy") - (len(pos) - len(a_.defaults))]
+    cfg_ = cfg_of(fi)
+    for c in reloads:
+        # the reload must be what happens to EVERY lazily opened font: an alternative that finishes loading in place does not reach Ligature / LazyList records
+        alt = [x for x in calls_in(fi) if callee_tail(x) == "ensureDecompiled"]
+        extra = [(norm(t), pol) for t, pol in guard_facts(cfg_, cfg_.node_for(c)) if "lazy" not in norm(t) and "isinstance" not in norm(t)]
+        if alt and extra:
+            rr.bad(fi, alt[0], f"a lazily opened font is only reloaded when {extra}; otherwise load_fully calls {short(alt[0], 50)}, which (fontTools <= 4.x) does not descend into lazily "
+                   f"built record lists: their glyph ids are resolved against the NEW glyph order at save time", construct="load_fully: ensureDecompiled instead of reload")
     for c in reloads:
         lz = _arg11(c, 1, "lazy")
         eff = lz if lz is not None else default
